@@ -106,3 +106,28 @@ Definition ded_bad : list ptok :=     (* the line of b moved to column 2 *)
 Example dedent_example :
   (exists t, parse_blocks 200 ded_ok = Ok t) /\ parse_blocks 200 ded_bad = Reject.
 Proof. vm_compute. split; [eexists; reflexivity|reflexivity]. Qed.
+
+(** groups: a parenthesised if as an argument with ')' on its own line, a tuple whose last element is a
+    multi-line if, a slice and a record literal with a multi-line value followed by ';' / '}' on a later
+    line, a record field broken after its name and after '=', a destructuring let, () *)
+Definition ex_groups (multi : bool) (inner2 : nat) : lprog :=
+  let v (a : nat) : lexpr := LT (LApp (LA a) ANil) in
+  let iff (c0 : nat) : lexpr :=
+    if multi then LT (LIf ((3, []), []) (TMulti 1 (LB (c0 + 4) (LExpr (v 4)) LNil) (IElse 0 c0 (BNext 0 (LB (c0 + 2) (LExpr (v 5)) LNil)))))
+    else LT (LIf ((3, []), []) (TOne ((4, []), []) (R1Else ((5, []), [])))) in
+  let cl (c0 : nat) := if multi then Some (1, c0) else None in
+  [(0, 0, LLetFn 1 2 []
+     (BNext 0
+       (LB 2 (LLetD 6 7 [8] (if multi then Some (0, 9) else None)
+                 (LT (LApp (LGroup GPar None (v 9) (QCons None None inner2 (v 10) (QCons None None 12 (iff 12) QNil)) (cl 3)) ANil)))
+       (LCons 0 2 (LLet 11 None (LT (LApp (LA 12) (ACons inner2 (LGroup GPar None (iff 14) QNil (cl 0)) (ACons inner2 LUnit ANil)))))
+       (LCons 0 2 (LLet 13 None (LT (LApp (LGroup GSlice None (v 14) (QCons None None inner2 (iff 20) QNil) (cl 5)) ANil)))
+       (LCons 0 2 (LExpr (LT (LApp (LGroup GRec (Some (15, (if multi then Some (0, 1) else None), (if multi then Some (2, 30) else None)))
+                                      (iff 30)
+                                      (QCons (cl 4) (Some (16, None, None)) inner2 (v 17) QNil) None) ANil))) LNil))))))].
+Example groups_two_layouts :
+  wf_prog None (ex_groups true 7) /\ wf_prog None (ex_groups false 40) /\
+  er_prog (ex_groups true 7) = er_prog (ex_groups false 40) /\
+  parse_blocks 400 (r_prog 0 (ex_groups true 7)) = Ok (er_prog (ex_groups true 7)) /\
+  parse_blocks 400 (r_prog 50 (ex_groups false 40)) = Ok (er_prog (ex_groups true 7)).
+Proof. vm_compute. repeat split; try lia. Qed.
